@@ -1,0 +1,119 @@
+//go:build verif
+
+package zygo
+
+import (
+	"errors"
+	"sort"
+	"sync/atomic"
+)
+
+// This file is only compiled with -tags verif. It gives external
+// verification harnesses (a) a process-wide VM step budget, so that
+// generated programs that do not terminate are cut off with an error
+// instead of a wall-clock timeout, and (b) read-only accessors to
+// otherwise unexported interpreter state.
+
+var ErrVerifBudget = errors.New("verif: step budget exhausted")
+
+var verifBudget int64
+var verifSteps int64
+
+// VerifSetStepBudget arms (n>0) or disarms (n<=0) the budget and
+// resets the step counter.
+func VerifSetStepBudget(n int64) {
+	atomic.StoreInt64(&verifBudget, n)
+	atomic.StoreInt64(&verifSteps, 0)
+}
+
+// VerifSteps returns the number of VM steps since the last VerifSetStepBudget.
+func VerifSteps() int64 { return atomic.LoadInt64(&verifSteps) }
+
+// VerifBudgetExceeded reports whether the armed budget has been used up.
+func VerifBudgetExceeded() bool {
+	b := atomic.LoadInt64(&verifBudget)
+	return b > 0 && atomic.LoadInt64(&verifSteps) > b
+}
+
+func (env *Zlisp) verifStep() error {
+	n := atomic.AddInt64(&verifSteps, 1)
+	b := atomic.LoadInt64(&verifBudget)
+	if b > 0 && n > b {
+		return ErrVerifBudget
+	}
+	return nil
+}
+
+// VerifDepths reports the sizes of the four runtime stacks, the
+// program counter, whether the current function is main, and whether
+// pc is at (or past) the end of the current function.
+type VerifDepthInfo struct {
+	Data, Scope, Addr, Loop int
+	PC                      int
+	AtMain                  bool
+	AtEnd                   bool
+}
+
+func (env *Zlisp) VerifDepths() VerifDepthInfo {
+	return VerifDepthInfo{
+		Data:   env.datastack.Size(),
+		Scope:  env.linearstack.Size(),
+		Addr:   env.addrstack.Size(),
+		Loop:   env.loopstack.Size(),
+		PC:     env.pc,
+		AtMain: env.curfunc == env.mainfunc,
+		AtEnd:  env.ReachedEnd(),
+	}
+}
+
+// VerifParser returns the interpreter's own parser.
+func (env *Zlisp) VerifParser() *Parser { return env.parser }
+
+// VerifMainLen is the number of instructions in the main function.
+func (env *Zlisp) VerifMainLen() int { return len(env.mainfunc.fun) }
+
+// VerifGlobalNames lists the names bound in the global scope, sorted.
+func (env *Zlisp) VerifGlobalNames() []string {
+	glob := env.linearstack.elements[0].(*Scope)
+	r := make([]string, 0, len(glob.Map))
+	for num := range glob.Map {
+		r = append(r, env.revsymtable[num])
+	}
+	sort.Strings(r)
+	return r
+}
+
+// VerifMacroNames lists the names of all macros, sorted.
+func (env *Zlisp) VerifMacroNames() []string {
+	r := make([]string, 0, len(env.macros))
+	for num := range env.macros {
+		r = append(r, env.revsymtable[num])
+	}
+	sort.Strings(r)
+	return r
+}
+
+// VerifBuiltinNames lists the names of all builtins, sorted.
+func (env *Zlisp) VerifBuiltinNames() []string {
+	r := make([]string, 0, len(env.builtins))
+	for num := range env.builtins {
+		r = append(r, env.revsymtable[num])
+	}
+	sort.Strings(r)
+	return r
+}
+
+// VerifSymNumber returns the number of a symbol.
+func VerifSymNumber(s *SexpSymbol) int { return s.number }
+
+// VerifSymTable returns a copy of the name->number table.
+func (env *Zlisp) VerifSymTable() map[string]int {
+	r := make(map[string]int, len(env.symtable))
+	for k, v := range env.symtable {
+		r[k] = v
+	}
+	return r
+}
+
+// VerifNextSymbol returns the interpreter's private gensym counter.
+func (env *Zlisp) VerifNextSymbol() int { return env.nextsymbol }
